@@ -98,9 +98,13 @@ def main():
       c2 = codes.reshape(shape)
       back1 = U.uniform_quantize(np.asarray(U.uniform_dequantize(c2, p1), np.float32), p1)
       obs.append({"kind": "rt", "codes": c2.flatten().tolist(), "back": [int(b) for b in back1.flatten()], "lo": lo, "hi": hi})
-    xs = np.linspace(float(F(v["mn"])) - 1.0, float(F(v["mx"])) + 1.0, 97).astype(np.float32).reshape(1, -1)
-    qs = U.uniform_quantize(xs, p)
-    obs.append({"kind": "mono", "qs": [int(b) for b in qs.flatten()], "lo": lo, "hi": hi})
+    # ascending inputs from far below to far above the range ("any array": outliers up to the largest finite float32)
+    far = [1e3, 1e6, 2.5e7, 1e12, 1e30, 3e38]
+    xs = np.concatenate([-np.array(far[::-1]), np.linspace(float(F(v["mn"])) - 1.0, float(F(v["mx"])) + 1.0, 97), np.array(far)]).astype(np.float32).reshape(1, -1)
+    with np.errstate(over="ignore", invalid="ignore"):
+      qs = U.uniform_quantize(xs, p)
+    # every outlier is beyond the representable range [deq(lo), deq(hi)] (ranges of these vectors are below 10 in magnitude)
+    obs.append({"kind": "mono", "qs": [int(b) for b in qs.flatten()], "lo": lo, "hi": hi, "below": len(far), "above": len(far)})
   # ---- per-channel parameters act only along their own channel (rank 1..4, any quantised dimension)
   rng = np.random.default_rng(args.seed)
   nchan = 60 if args.tier == "quick" else 1500
